@@ -222,7 +222,9 @@ def judge_running_statistics(rs, sh):
         bad.append("err %r vs exact %r (tol %.3g)" % (rs.err, err, tol_err))
     if mean != 0 and abs(mean) > 64 * tol_mean:
         rel = err / abs(mean)
-        if not abs(rs.rel_err - rel) <= 1e-6 * rel + 1.01 * tol_err / abs(mean):
+        # err / |mean|: the error of BOTH enters (first order: d(err)/|mean| + rel * d(mean)/|mean|; the guard above keeps
+        # d(mean)/|mean| below 1/64, so the second-order remainder is covered by the factor 1.1)
+        if not abs(rs.rel_err - rel) <= 1e-6 * rel + 1.01 * tol_err / abs(mean) + 1.1 * rel * tol_mean / abs(mean):
             bad.append("rel_err %r vs exact %r" % (rs.rel_err, rel))
     return bad
 
